@@ -22,6 +22,23 @@ func runExtra(r *common.Rand) {
 		}
 		runConcBatch(batch)
 	}
+	// the same callers through the DynamicStore of store.go, with IsAuthConfigured calls mixed in
+	nd := run.Scale(100, 5000)
+	for i := 0; i < nd; i += 100 {
+		var batch []concCase
+		for j := i; j < nd && j < i+100; j++ {
+			cc := genConc(r)
+			cc.Dynamic = true
+			for t := range cc.Threads {
+				at := r.Intn(len(cc.Threads[t]) + 1)
+				ops := append([]opx{}, cc.Threads[t][:at]...)
+				ops = append(ops, opx{Op: "I"})
+				cc.Threads[t] = append(ops, cc.Threads[t][at:]...)
+			}
+			batch = append(batch, cc)
+		}
+		runConcBatch(batch)
+	}
 	if crashkit.Available() {
 		for _, cc := range fixedDelayed() {
 			runConc(cc)
@@ -69,6 +86,7 @@ func replayExtra(c map[string]string) {
 			fmt.Fprintln(os.Stderr, "bad replay threads:", err)
 			os.Exit(2)
 		}
+		cc.Dynamic = c["dynamic"] == "true"
 		if d, ok := c["delay"]; ok && d != "null" && d != "" {
 			cc.Delay = &delaySpec{}
 			if err := json.Unmarshal([]byte(d), cc.Delay); err != nil {
